@@ -20,6 +20,24 @@ func init() {
 				}
 				return ""
 			}
+			// the third field is the key order of the operation's OWN output. For the two String() methods that order (and the whole
+			// text format) is fixed by no property — C20 is about the token staying what it was, which the first two fields show —
+			// so it is not compared for them.
+			f := strings.Fields(line)
+			op := ""
+			switch {
+			case len(f) > 1 && f[0] == "imm.op":
+				op = f[1]
+			case len(f) > 2 && f[0] == "imm.pair":
+				op = f[2]
+			}
+			if op == "argsString" || op == "metaString" {
+				gf, mf := strings.Fields(g), strings.Fields(m)
+				if len(gf) == 4 && len(mf) == 4 {
+					gf[2], mf[2] = "-", "-"
+					g, m = strings.Join(gf, " "), strings.Join(mf, " ")
+				}
+			}
 			if g != m {
 				return "token state or output differs from the frame model"
 			}
